@@ -9,5 +9,5 @@ Extraction Language OCaml.
 Extraction "stripe_model.ml"
   step run s_default s_index count_symbol count_symbols lin_count lin_counts
   check_C04 observe op_typed generic_op last_seq wrap_after
-  check_striped check_wrap_rows striped_row seq_rows
+  check_striped_fast check_striped check_wrap_rows striped_row seq_rows
   stripe_into_generic stripe_into_avx2 net_block net_loads net_ops net_stores disp_stripe.
